@@ -306,6 +306,10 @@ def run(m, tier):
     results.append(rr.rule_inline_table(m, "C11.R10"))
     results.append(r11_strict_order(m, blocks))
     results.append(order_rules.lifo_restore_rule(m, "C11.R12"))
+    from rules import order_rules as _or
+    results.append(_or.comment_option_owner_rule(m, "C11.R15"))
+    from rules import two_roundtrip
+    results.append(two_roundtrip.block_printer_rule(m, "C11.R14"))
     from rules import reader_interp
     results.append(reader_interp.comments_rule(m, "C11.R13", tier))
     expl = ("Decides structural clauses of C11: per call site of the block engine the class list tried at every position contains the "
